@@ -37,7 +37,7 @@ MODEL = dict(
         lambda ev: set_field(ev, ["pv"], ev["pv"] + 1) if ev["res"] == "ok" and ev["op"]["op"] in ("mint", "withdraw") else None,
         lambda ev: set_field(ev, ["obs", "asset", "v"], ev["obs"]["asset"]["v"] - 1) if ev["res"] == "ok" and ev["op"]["op"] == "deposit" and ev["op"]["x"] > 0 else None,
         lambda ev: set_field(ev, ["obs", "supply"], ev["obs"]["supply"] + 1),
-        lambda ev: set_field(ev, ["evs"], []) if ev["evs"] else None,
+        lambda ev: set_field(ev, ["evs"], []) if any(x.get("k") in ("deposit", "withdraw", "transfer", "mint", "burn") for x in ev["evs"]) else None,
     ],
 )
 SERVES = {
